@@ -25,6 +25,7 @@ OpSpace ==
   \cup (IF "spawnnp" \in Kinds /\ Len(procs) < MaxProc /\ Room(2) THEN {Op("spawn", 0, 1, 0, Z)} ELSE {})
   \cup (IF "interrupt" \in Kinds /\ Room(1) THEN {Op("interrupt", q, 0, 0, Z) : q \in 1..Len(procs)} ELSE {})
   \cup (IF "interruptn" \in Kinds /\ Room(1) THEN {Op("interrupt", q, 1, 0, Z) : q \in 1..Len(procs)} ELSE {})
+  \cup (IF "cbintr" \in Kinds /\ Room(1) THEN {Op("cbintr", e, q, 0, Z) : e \in {x \in UserEvs : evs[x].st # "processed"}, q \in 1..Len(procs)} ELSE {})
   \cup (IF "cond" \in Kinds /\ Room(1) THEN {Op("cond", a, 1, 0, s) : a \in {0, 1}, s \in KidSeqs} ELSE {})
   \* the same event listed twice (ev & ev, overlapping operand lists): counted per listing
   \cup (IF "conddup" \in Kinds /\ Room(1) THEN {Op("cond", a, 1, 0, <<x, x>>) : a \in {0, 1}, x \in UserEvs}
